@@ -18,6 +18,8 @@ struct VerifHooks
   void (*on_statement)(Context& ctx, const Statement * stmt);
   /* called by Context::allocate before a temporary is handed out */
   void (*on_allocate)(Context& ctx);
+  /* called at every debug trace point (bloc::DBG), whatever the trace level */
+  void (*on_trace)();
 };
 
 /* all null by default */
